@@ -177,6 +177,17 @@ def run_cases(ctx, res, cases, tmp, keypath, key):
             if r1[0] == "ok" and not tag and F.satisfies(f, unproxy(r1[1])) is False:
                 res.violate("C05:accepted-breaks-declared-constraint:" + f["k"], "a value was accepted although it breaks a constraint the field declares",
                             dict(case, accepted=F.enc_val(r1[1])))
+            if r1[0] == "ok" and f.get("custom") and f["k"] in ("string", "int", "float"):
+                # a field's result is what its own validator returned, whatever that is (0, "", False included)
+                try:
+                    base, bcfg = make_cfg(dict(f, custom=None), tmp, keypath)
+                    with Urandom():
+                        want = F.CATALOGUE[f["custom"]](bcfg, base.validate(bcfg, v))
+                    if not same(r1[1], want):
+                        res.violate("C05:custom-result-dropped:" + f["k"], "validate does not return what the field's own validator returned",
+                                    dict(case, got=F.enc_val(r1[1]), want=F.enc_val(want)))
+                except Exception:  # noqa
+                    pass
             if r1[0] == "ok" and not has_custom(f):
                 if r2[0] != "ok":
                     res.violate("C05:idem-reject:" + f["k"] + tag,
